@@ -582,13 +582,13 @@ USL_RULES = Q_RULES + [
     Rule(r"\bmsc_range\.", "msc_range->", "*", note="reference -> pointer"),
     Rule(r"UrbanMscSafetyStepLimit::min_range\(\)", "g_rho_", "*", note="constexpr constant (any positive value)"),
     Rule(r"UrbanMscSafetyStepLimit::max_step_over_range\(\)", "g_alpha_", "*", note="constexpr constant (any value)"),
-    Rule(r"real_type limit_step = [^;]*;", "real_type limit_step = __CPROVER_uninterpreted_any2(alpha, range);", "*", note="scaled step range (nonlinear FP) -> uninterpreted (value not decided)"),
+    Rule(r"real_type limit_step = [^;]*;", "real_type limit_step = __CPROVER_uninterpreted_any2(alpha, range); __CPROVER_assume(limit_step > 0);", "*", note="scaled step range (nonlinear FP) -> uninterpreted POSITIVE value (alpha r + rho (1 - alpha)(2 - rho/r) > 0 for r > rho; not decided)"),
     Rule(r"NormalDistribution<real_type> sample_gauss\(\s*([^;]*?),\s*([^;,]*)\);", r"real_type gauss_mean_ = \1, gauss_sd_ = \2;", "*", note="distribution construction -> its two arguments"),
     Rule(r"sample_gauss\(rng\)", "GAUSS_sample(gauss_mean_, gauss_sd_, rng)", "*", note="normal sample -> stub (any value)"),
     Rule(r"real_type\(0\.1\)", "((real_type)0.1)", "*", note="functional cast"),
     Rule(r"(?<![\w.>])(max_step_|limit_min_|limit_)\b", r"self->\1", "*", note="data members"),
 ]
-USL_INV = "NN(self->max_step_) && NN(self->limit_) && NN(self->limit_min_) && self->limit_ >= self->limit_min_"
+USL_INV = "NN(self->max_step_) && NN(self->limit_) && NN(self->limit_min_) && self->limit_ >= self->limit_min_ && self->limit_min_ > 0 && self->max_step_ > 0"
 
 
 def build_usl_call(ctx):
@@ -598,8 +598,8 @@ real_type USL_call(UrbanMscSafetyStepLimit const* self, Engine* rng)
 /* class invariant established by the constructor (c05_msc_safety_limit_ctor) */
 __CPROVER_requires(self != 0 && """ + USL_INV + """)
 __CPROVER_assigns()
-/* the true path length limit never exceeds the physics step limit chosen before the step */
-__CPROVER_ensures(__CPROVER_return_value <= self->max_step_)
+/* the true path length limit never exceeds the physics step limit chosen before the step, and is positive */
+__CPROVER_ensures(__CPROVER_return_value <= self->max_step_ && __CPROVER_return_value > 0)
 /* and, unless the physics limit itself is shorter, is not below the minimum true path */
 __CPROVER_ensures(self->max_step_ > self->limit_ ==> __CPROVER_return_value >= self->limit_min_)
 {""" + pc.body + """}
@@ -661,4 +661,169 @@ UNITS += [
          must_have=[r"USL_ctor.postcondition", r"celer_expect"], checks=LEAF_CHECKS,
          assumptions=["calc_limit_min >= limit_min_fix (its final max)", "range-factor scaling and the safety_plus scaled step are uninterpreted (values not decided)", "NOT PROMOTED: CELER_ASSERT(msc_range) after caching"],
          note="UrbanMscSafetyStepLimit constructor: max_step == the physics step (only lowered, never raised, under safety_plus); limit >= limit_min"),
+]
+
+
+# ---------------------------------------------------------------------------
+# UrbanMsc::limit_step / apply_step: the step length through the true-path <-> geometric-path conversions
+# ---------------------------------------------------------------------------
+UMS = "src/celeritas/em/msc/UrbanMsc.hh"
+UMS_MODEL = """
+typedef struct { bool is_displaced; real_type true_path, geom_path, alpha; } MscStep;          /* { is_displaced{true}, true_path{}, geom_path{}, alpha = 0 } */
+typedef struct { real_type step, alpha; } MscStepToGeoResult;
+typedef struct { int action; real_type direction, displacement; } MscInteraction;              /* Real3 members abstracted to one component */
+enum { MA_displaced = 0, MA_scattered = 1, MA_unchanged = 2 };                                  /* MscInteraction::Action (only equality with displaced / unchanged is used) */
+typedef struct { Track* t; } GeoTrackView;
+MscStep g_msc_step;            /* PhysicsStepView::msc_step(): the slot's MSC step record */
+real_type g_limit_min_fix, g_helper_max_step, g_msc_mfp, g_safety, g_geom_limit, g_safety_tol;   /* params / helper values (any), geometry safety */
+ActionId g_msc_action; bool g_minimal, g_on_boundary;
+unsigned g_draws;
+/* geometry: find_safety(max) >= 0 (property C11) */
+static bool GEO_is_on_boundary(GeoTrackView const* g) { return g_on_boundary; }
+real_type GEO_find_safety(GeoTrackView* g, real_type max_step) __CPROVER_requires(max_step > 0) __CPROVER_assigns() __CPROVER_ensures(__CPROVER_return_value >= 0 && __CPROVER_return_value == g_safety);
+/* UrbanMscSafetyStepLimit{...}(rng): constructor EXPECTs as requires; 0 < result <= the physics step handed in (contracts: c05_msc_safety_limit_ctor / _call) */
+real_type SAFETY_limit(bool on_boundary, real_type safety, real_type phys_step, real_type range)
+__CPROVER_requires(safety >= 0 && safety < g_helper_max_step && phys_step > g_limit_min_fix && phys_step <= range)
+__CPROVER_assigns(g_draws)
+__CPROVER_ensures(__CPROVER_return_value > 0 && __CPROVER_return_value <= phys_step)
+;
+/* UrbanMscMinimalStepLimit{...}(rng): same constructor EXPECTs; result <= the physics step (assumed: not under contract) */
+real_type MINIMAL_limit(bool on_boundary, real_type phys_step, real_type range)
+__CPROVER_requires(phys_step > g_limit_min_fix && phys_step <= range)
+__CPROVER_assigns(g_draws)
+__CPROVER_ensures(__CPROVER_return_value > 0 && __CPROVER_return_value <= phys_step)
+;
+/* MscStepToGeo(tstep): own EXPECT 0 <= tstep <= range; geometric path <= true path (c14_msc_to_geo) and > 0 for a positive true path (assumed: transcendental) */
+MscStepToGeoResult TOGEO_call(real_type tstep, real_type range)
+__CPROVER_requires(tstep >= 0 && tstep <= range)
+__CPROVER_assigns()
+__CPROVER_ensures(__CPROVER_return_value.step <= tstep && (tstep > 0 ==> __CPROVER_return_value.step > 0))
+;
+/* MscStepFromGeo(gstep): own EXPECT 0 <= gstep <= true_step; result in [gstep, true_step] (c14_msc_from_geo) */
+real_type FROMGEO_call(real_type gstep, real_type true_step)
+__CPROVER_requires(gstep >= 0 && gstep <= true_step)
+__CPROVER_assigns()
+__CPROVER_ensures(__CPROVER_return_value >= gstep && __CPROVER_return_value <= true_step)
+;
+real_type SCATTER_calc_displacement(real_type g, real_type t) __CPROVER_assigns() __CPROVER_ensures(!__CPROVER_isnand(__CPROVER_return_value));
+MscInteraction SCATTER_sample(real_type safety, MscStep const* step) __CPROVER_assigns(g_draws) __CPROVER_ensures(__CPROVER_return_value.action >= 0 && __CPROVER_return_value.action <= 2 && (__CPROVER_return_value.action == MA_displaced ==> step->is_displaced));
+void GEO_set_dir1(GeoTrackView* g, real_type d) __CPROVER_assigns() __CPROVER_ensures(1);
+void GEO_move_internal1(GeoTrackView* g, real_type p) __CPROVER_requires(!g_on_boundary) __CPROVER_assigns() __CPROVER_ensures(1);
+static real_type celer_max(real_type a, real_type b) { return fmax(a, b); }
+"""
+UMS_COMMON = Q_RULES + [
+    Rule(r"auto phys = track\.make_physics_view\(\);", "PhysicsTrackView phys = CTV_make_physics_view(track);", "*", note="typed view handle"),
+    Rule(r"auto par = track\.make_particle_view\(\);", "ParticleTrackView par = CTV_make_particle_view(track);", "*", note="typed view handle"),
+    Rule(r"auto sim = track\.make_sim_view\(\);", "SimTrackView sim = CTV_make_sim_view(track);", "*", note="typed view handle"),
+    Rule(r"auto geo = track\.make_geo_view\(\);", "GeoTrackView geo = {track->t};", "*", note="typed view handle"),
+    Rule(r"UrbanMscHelper msc_helper\(shared_, par, phys\);", "", "*", note="helper object (its accessors are ghost values)"),
+    Rule(r"shared_\.params\.limit_min_fix\(\)", "g_limit_min_fix", "*", note="params"),
+    Rule(r"shared_\.params\.(geom_limit|safety_tol)", r"g_\1", "*", note="params"),
+    Rule(r"msc_helper\.max_step\(\)", "g_helper_max_step", "*", note="helper accessor"),
+    Rule(r"msc_helper\.msc_mfp\(\)", "g_msc_mfp", "*", note="helper accessor"),
+    Rule(r"sim\.step_length\(\)", "STV_step_length(&sim)", "*", note="view call"),
+    Rule(r"sim\.step_length\(", "STV_step_length_set(&sim, ", "*", note="view setter (own EXPECT length > 0)"),
+    Rule(r"sim\.post_step_action\(\)", "STV_post_step_action(&sim)", "*", note="view call"),
+    Rule(r"sim\.post_step_action\(", "STV_post_step_action_set(&sim, ", "*", note="view setter"),
+    Rule(r"geo\.is_on_boundary\(\)", "GEO_is_on_boundary(&geo)", "*", note="geometry view call"),
+    Rule(r"geo\.find_safety\(", "GEO_find_safety(&geo, ", "*", note="geometry view call -> contract (C11)"),
+    Rule(r"phys\.dedx_range\(\)", "PHV_dedx_range(&phys)", "*", note="view call"),
+    Rule(r"auto rng = track\.make_rng_engine\(\);", "", "*", note="RNG handle"),
+]
+UMS_LIMIT_RULES = UMS_COMMON + [
+    IIFE(["real_type", "MscStepToGeoResult", "MscStep"]),
+    Rule(r"phys\.scalars\(\)\.step_limit_algorithm\s*==\s*MscStepLimitAlgorithm::minimal", "g_minimal", "*", note="scalars option"),
+    Rule(r"UrbanMscMinimalStepLimit calc_limit\(shared_,\s*msc_helper,\s*&phys,\s*([^,]*),\s*([^;]*?)\);\s*(\{ lam_\d+ = )calc_limit\(rng\);", r"\3MINIMAL_limit(\1, \2, PHV_dedx_range(&phys));", "*", flags=16, note="construct + call -> stub with the constructor's EXPECTs"),
+    Rule(r"UrbanMscSafetyStepLimit calc_limit\(shared_,\s*msc_helper,\s*par\.energy\(\),\s*&phys,\s*phys\.material_id\(\),\s*([^,]*),\s*([^,]*),\s*([^;]*?)\);\s*(\{ lam_\d+ = )calc_limit\(rng\);", r"\4SAFETY_limit(\1, \2, \3, PHV_dedx_range(&phys));", "*", flags=16, note="construct + call -> stub with the contracts of c05_msc_safety_limit_*"),
+    Rule(r"MscStepToGeo calc_geom_path\(shared_,\s*msc_helper,\s*par\.energy\(\),\s*g_msc_mfp,\s*PHV_dedx_range\(&phys\)\);", "", "*", flags=16, note="converter object"),
+    Rule(r"auto gp = calc_geom_path\(true_path\);", "MscStepToGeoResult gp = TOGEO_call(true_path, PHV_dedx_range(&phys));", "*", note="converter call -> contract (c14_msc_to_geo)"),
+    Rule(r"auto gp = ", "MscStepToGeoResult gp = ", "*", note="auto"),
+    Rule(r"track\.make_physics_step_view\(\)\.msc_step\(", "PSV_msc_step_set(", "*", note="view setter"),
+    Rule(r"MscStep result;", "MscStep result = {1, 0, 0, 0};", "*", note="default member initializers"),
+    Rule(r"phys\.scalars\(\)\.msc_action\(\)", "g_msc_action", "*", note="scalars accessor"),
+]
+
+
+def build_ums_limit(ctx):
+    pc = ctx.func(UMS, r"^CELER_FUNCTION void UrbanMsc::limit_step\(CoreTrackView const& track\)", UMS_LIMIT_RULES, name="UrbanMsc::limit_step")
+    return (VHDR + "#include <math.h>\n" + C05_STUBS + UMS_MODEL + """
+static void PSV_msc_step_set(MscStep s) { g_msc_step = s; }
+#define T0(f) __CPROVER_old(track->t->f)
+void UMS_limit_step(CoreTrackView const* track)
+__CPROVER_requires(VIEW_OK(track))
+/* state after the pre-step: a positive finite physics step that does not exceed the range (is_applicable: step > geom_limit > 0) */
+__CPROVER_requires(track->t->step_length > 0 && !__CPROVER_isinfd(track->t->step_length) && track->t->step_length <= track->t->dedx_range && !__CPROVER_isinfd(track->t->dedx_range))
+__CPROVER_requires(g_limit_min_fix > 0 && g_helper_max_step > 0 && g_msc_mfp > 0 && !__CPROVER_isnand(g_msc_mfp) && g_msc_action != INVALID_ID)
+__CPROVER_assigns(track->t->step_length, track->t->post_step_action, g_msc_step, g_draws)
+/* the true path never exceeds the physics step limit, the geometric path never exceeds the true path, and the step handed to the propagator is the geometric path (> 0) */
+__CPROVER_ensures(g_msc_step.true_path <= T0(step_length) && g_msc_step.geom_path <= g_msc_step.true_path && g_msc_step.geom_path > 0 && track->t->step_length == g_msc_step.geom_path)
+/* the step's action becomes the MSC action exactly when MSC shortened it; otherwise the physics action is kept */
+__CPROVER_ensures(track->t->post_step_action == T0(post_step_action) || track->t->post_step_action == g_msc_action)
+__CPROVER_ensures((g_msc_step.true_path < T0(step_length)) ==> track->t->post_step_action == g_msc_action)
+{""" + pc.body + """}
+void h_umsl(void)
+{
+    Track t; CoreTrackView v = {&t}; unsigned r1, r2; g_minimal = (r1 != 0); g_on_boundary = (r2 != 0);
+    UMS_limit_step(&v);
+    VERIF_CANARY();
+}
+""")
+
+
+UMS_APPLY_RULES = UMS_COMMON + [
+    IIFE(["MscInteraction"]),
+    Rule(r"auto msc_step = track\.make_physics_step_view\(\)\.msc_step\(\);", "MscStep msc_step = g_msc_step;", "*", note="view read (a copy, as in the source)"),
+    Rule(r"this->is_geo_limited\(track\)", "UMS_is_geo_limited(track)", "*", note="member call (body extracted)"),
+    Rule(r"MscStepFromGeo geo_to_true\(\s*shared_\.params, msc_step, PHV_dedx_range\(&phys\), g_msc_mfp\);", "", "*", flags=16, note="converter object"),
+    Rule(r"geo_to_true\(msc_step\.geom_path\)", "FROMGEO_call(msc_step.geom_path, msc_step.true_path)", "*", note="converter call -> contract (c14_msc_from_geo)"),
+    Rule(r"auto msc_result = ", "MscInteraction msc_result = ", "*", note="auto"),
+    Rule(r"UrbanMscScatter::calc_displacement\(", "SCATTER_calc_displacement(", "*", note="static member -> stub"),
+    Rule(r"(?<![\w_])max\(", "celer_max(", "*", note="celeritas::max"),
+    Rule(r"auto mat = track\.make_material_view\(\)\.make_material_view\(\);", "", "*", note="material view (only forwarded to the sampler)"),
+    Rule(r"UrbanMscScatter sample_scatter\(\s*shared_, msc_helper, par, phys, mat, geo\.dir\(\), safety, msc_step\);", "", "*", flags=16, note="sampler object"),
+    Rule(r"sample_scatter\(rng\)", "SCATTER_sample(safety, &msc_step)", "*", note="angular / displacement sampling -> stub"),
+    Rule(r"MscInteraction::Action::(\w+)", r"MA_\1", "*", note="enum"),
+    Rule(r"geo\.set_dir\(msc_result\.direction\);", "GEO_set_dir1(&geo, msc_result.direction);", "*", note="geometry view call"),
+    Rule(r"geo\.move_internal\(geo\.pos\(\) \+ msc_result\.displacement\);", "GEO_move_internal1(&geo, msc_result.displacement);", "*", note="geometry view call (requires: not on a boundary)"),
+]
+
+
+def build_ums_apply(ctx):
+    pc = ctx.func(UMS, r"^CELER_FUNCTION void UrbanMsc::apply_step\(CoreTrackView const& track\)", UMS_APPLY_RULES, name="UrbanMsc::apply_step")
+    gl = ctx.func(UMS, r"^CELER_FUNCTION bool UrbanMsc::is_geo_limited\(CoreTrackView const& track\)", UMS_COMMON + [Rule(r"track\.(boundary_action|propagation_limit_action)\(\)", r"CTV_\1(track)", "*", note="CoreTrackView member")], name="UrbanMsc::is_geo_limited")
+    return (VHDR + "#include <math.h>\n" + C05_STUBS + UMS_MODEL + "static bool UMS_is_geo_limited(CoreTrackView const* track)\n{" + gl.body + "}\n" + """
+#define T0(f) __CPROVER_old(track->t->f)
+#define GEO_LIMITED0 (T0(post_step_action) == track->t->boundary_action || T0(post_step_action) == track->t->propagation_limit_action)
+void UMS_apply_step(CoreTrackView const* track)
+__CPROVER_requires(VIEW_OK(track))
+/* state after limit_step and the propagation: the step length is the distance actually travelled along the geometric path, 0 < travelled <= geom_path <= true_path;
+   a step not limited by the geometry was travelled in full */
+__CPROVER_requires(track->t->step_length > 0 && track->t->step_length <= g_msc_step.geom_path && g_msc_step.geom_path <= g_msc_step.true_path && !__CPROVER_isinfd(g_msc_step.true_path))
+__CPROVER_requires((track->t->post_step_action != track->t->boundary_action && track->t->post_step_action != track->t->propagation_limit_action) ==> track->t->step_length == g_msc_step.geom_path)
+__CPROVER_requires(g_msc_step.is_displaced ==> !g_on_boundary)         /* limit_step only displaces tracks that are off the boundary */
+__CPROVER_requires(g_on_boundary == (track->t->post_step_action == track->t->boundary_action) && g_geom_limit > 0)
+__CPROVER_assigns(track->t->step_length, g_draws)
+/* the physical (true) step is never shorter than the geometric distance travelled and never longer than the true path fixed before the step (hence never beyond the physics limit) */
+__CPROVER_ensures(track->t->step_length >= T0(step_length) && track->t->step_length <= g_msc_step.true_path)
+/* a step that the geometry did not shorten gets back exactly its true path */
+__CPROVER_ensures(!GEO_LIMITED0 ==> track->t->step_length == g_msc_step.true_path)
+{""" + pc.body + """}
+void h_umsa(void)
+{
+    Track t; CoreTrackView v = {&t}; unsigned r2; g_on_boundary = (r2 != 0);
+    UMS_apply_step(&v);
+    VERIF_CANARY();
+}
+""")
+
+
+UNITS += [
+    Unit("c05_urban_msc_limit_step", build_ums_limit, "h_umsl", enforce="UMS_limit_step", replace=["GEO_find_safety", "SAFETY_limit", "MINIMAL_limit", "TOGEO_call", "STV_step_length_set", "STV_post_step_action_set"], timeout=300, object_bits=10, backend=["sat", "cvc5"],
+         must_have=[r"UMS_limit_step.postcondition", r"celer_assert", r"SAFETY_limit.precondition", r"TOGEO_call.precondition", r"STV_step_length_set.precondition"], checks=LEAF_CHECKS,
+         assumptions=["UrbanMscSafetyStepLimit by its contracts (c05_msc_safety_limit_*), UrbanMscMinimalStepLimit <= the physics step (assumed)", "MscStepToGeo: geometric <= true (c14_msc_to_geo) and > 0 for a positive true path (assumed)", "find_safety >= 0 (C11)"],
+         note="UrbanMsc::limit_step: true path <= physics step limit, 0 < geometric path <= true path, the propagator gets the geometric path, the MSC action is recorded exactly when MSC shortened the step; the limiters' constructor EXPECTs (safety < max_step, step > limit_min_fix, step <= range) hold at the call sites; both in-body CELER_ASSERTs hold"),
+    Unit("c05_urban_msc_apply_step", build_ums_apply, "h_umsa", enforce="UMS_apply_step", replace=["GEO_find_safety", "FROMGEO_call", "SCATTER_calc_displacement", "SCATTER_sample", "GEO_set_dir1", "GEO_move_internal1", "STV_step_length_set"], timeout=300, object_bits=10, backend=["sat", "cvc5"],
+         must_have=[r"UMS_apply_step.postcondition", r"celer_assert", r"FROMGEO_call.precondition", r"STV_step_length_set.precondition"], checks=LEAF_CHECKS,
+         assumptions=["MscStepFromGeo in [geometric, true] (c14_msc_from_geo)", "angular / displacement sampling not under contract (only: a displacement is returned only for a displaced step)", "find_safety >= 0 (C11)"],
+         note="UrbanMsc::apply_step: the physical step restored after propagation is >= the geometric distance travelled (never shorter than the straight-line displacement) and <= the true path fixed before the step; an unshortened step gets back exactly its true path; callee preconditions and in-body CELER_ASSERTs hold"),
 ]
